@@ -102,6 +102,17 @@ class C16(Prop):
             for k in names:
                 data[k][n1:] = [big if rng.random() < 0.7 else -big for _ in range(ext)]
         case = {'formula': f, 'data': data, 'n1': n1}
+        if rng.random() < 0.2:
+            # one specification object for the trace and for its extension, possibly written as a modular
+            # specification and possibly after a call that failed part-way (one variable without numbers)
+            case['same_object'] = True
+            case['failing_first'] = len(names) >= 2 and rng.random() < 0.6
+            if lang.depth(f) >= 2 and rng.random() < 0.6:
+                top, defs = lang.decompose(rng, f, rng.randint(1, 3))
+                if defs:
+                    case['modular'] = {'top': lang.to_jsonable(top), 'defs': [[nm, lang.to_jsonable(g)] for nm, g in defs],
+                                       'consts': [], 'style': rng.choice(['one-text', 'subspecs'])}
+            return case
         sugar = 'unless' in lang.ops_of(f)             # expanded by the parser into two operators sharing the bounds
         if rng.random() < (0.6 if sugar else 0.3):
             # a sampling period other than 1 s, bounds written in its unit; and possibly a neighbour: another
@@ -159,8 +170,26 @@ class C16(Prop):
                 except Exception:
                     pass
         try:
-            r1 = drive.values(drive.dt_offline(text, names, data, n1, times=times and times[:n1], sd=sd))
-            r2 = drive.values(drive.dt_offline(text, names, data, n2, times=times, sd=sd))
+            if case.get('same_object'):
+                sdo = {'text': text, 'vars': list(names)}
+                if case.get('modular'):
+                    from rtverif.props.c09 import modular_sd
+                    sdo = modular_sd(case['modular'], list(names))
+                    v.info['class:modular'] = 1
+                mo = drive.Mon('dt', sdo)
+                v.info['class:same-object'] = 1
+                if case.get('failing_first'):
+                    bad = drive.dt_dataset(data, n2)
+                    bad[names[-1]] = [None] * n2
+                    try:
+                        mo.evaluate(bad)
+                    except Exception:
+                        v.info['failing-call-first'] = 1
+                r1 = drive.values(mo.evaluate(drive.dt_dataset(data, n1)))
+                r2 = drive.values(mo.evaluate(drive.dt_dataset(data, n2)))
+            else:
+                r1 = drive.values(drive.dt_offline(text, names, data, n1, times=times and times[:n1], sd=sd))
+                r2 = drive.values(drive.dt_offline(text, names, data, n2, times=times, sd=sd))
         except Exception as e:
             v.bad('raises:' + type(e).__name__, '%s: evaluate raised %s: %s' % (text, type(e).__name__, e))
             return v
@@ -176,6 +205,9 @@ class C16(Prop):
         return v
 
     shrink_data = False
+
+    def shrinkable(self, case):
+        return 'formula' in case and not case.get('modular')
 
 
 PROP = C16()
